@@ -345,7 +345,13 @@ impl Criterion {
     debug_assert!(!self.topics.is_empty());
 
     self.topics.iter().any(|glob| glob.matches(topic_name))
-      && partitions.all(|p| self.partitions.iter().any(|glob| glob.matches(p)))
+      && partitions.all(|p| {
+        if self.partitions.is_empty() {
+          p.is_empty() // no partitions listed means the default "empty string" partition
+        } else {
+          self.partitions.iter().any(|glob| glob.matches(p))
+        }
+      })
       && data_tags.all(|(name, value)| self.data_tags.iter().any(|dt| dt.check(name, value)))
   }
 
